@@ -270,6 +270,7 @@ H("win_alloc_layout_256m", variant="x64-windows", modules=["rt", "x64dec", "allo
 GATE_FUNCS = ["WhenCalledBuilder::will_execute_raw", "WhenCalledBuilderAsync::will_return_async", "WhenCalledBuilder::will_return_boolean",
               "injector::signature_returns_bool (if present)", "FuncPtr::new", "InjectorPP::when_called", "InjectorPP::when_called_async", "str::eq / str::trim"]
 MISMATCH = (r"will_execute_raw|will_return_async|will_return_boolean", r"Signature mismatch|signature|placeholder message")
+TRIM_ASSUME = ["str::trim is replaced by its contract on ASCII input (strip ASCII white space at both ends): std's UTF-8 / Unicode White_Space machinery dominated the formula; the strings the harness builds are printable ASCII"]
 for n, unw in ((2, 26), (6, 26), (12, 26)):
     GSCHEMA = [("f", 8, 1), ("entry_bytes", 1, 24), ("la", 8, 1), ("a", 1, n), ("lb", 8, 1), ("b", 1, n), ("t", 8, 1)]
     H("sig_gate_differs_%d" % n, variant="x64-linux", modules=["rt", "gates"], cex_schema=GSCHEMA, replay="replay_sig_gate",
@@ -294,14 +295,24 @@ for n in (16, 20, 22):
       cex_schema=[("f", 8, 1), ("entry_bytes", 1, 24), ("len", 8, 1), ("sig", 1, n)],
       expected=[MISMATCH], must_reach=[0], functions=GATE_FUNCS,
       symbolic="every printable-ASCII signature string of length <= %d that an independent parser reads as `<prefix>fn(<balanced>)[ -> <ret>]` with a top-level return type other than bool (includes return types that merely END in `-> bool`)" % n,
-      bounds="signature strings up to %d bytes; unwind 26" % n, assumptions=API_ASSUME, mem_gb=24)
+      bounds="signature strings up to %d bytes; unwind 26" % n, assumptions=API_ASSUME + TRIM_ASSUME, mem_gb=24)
 for n in (16, 22):
     H("bool_gate_accepts_%d" % n, variant="x64-linux", modules=["rt", "gates"],
       covers=["COVER: signature of maximal length"],
       forbidden=[(MISMATCH[0], MISMATCH[1], ["C10"], "a function whose return type is exactly bool is refused by will_return_boolean")],
       functions=GATE_FUNCS + X64_CORE_FUNCS,
       symbolic="every printable-ASCII signature string of length <= %d whose top-level return type is exactly bool" % n,
-      bounds="signature strings up to %d bytes; unwind 26" % n, assumptions=API_ASSUME, mem_gb=24)
+      bounds="signature strings up to %d bytes; unwind 26" % n, assumptions=API_ASSUME + TRIM_ASSUME, mem_gb=24)
+for L, want in ((15, False), (20, False), (12, True)):
+    H("bool_gate_%s_len%d" % ("accepts" if want else "refuses", L), variant="x64-linux", modules=["rt", "gates"],
+      expected=[] if want else [MISMATCH], must_reach=[] if want else [0],
+      covers=["COVER: accepted signature of this length exists"] if want else [],
+      forbidden=[(MISMATCH[0], MISMATCH[1], ["C10"], "a function whose return type is exactly bool is refused by will_return_boolean")] if want else [],
+      functions=GATE_FUNCS,
+      symbolic="every printable-ASCII signature string of EXACTLY %d bytes that the independent parser reads as a fn-pointer type name whose top-level return type %s bool" % (L, "is" if want else "is not"),
+      bounds="exact length %d (the union over lengths is the symbolic-length claim; exact lengths stay cheaper for the solver)" % L,
+      assumptions=API_ASSUME + TRIM_ASSUME, mem_gb=24, replay="replay_bool_gate",
+      cex_schema=[("f", 8, 1), ("entry_bytes", 1, 24), ("sig", 1, L)])
 
 # ---------------------------------------------------------------------------------------------
 # family H: panics while fakes are installed (C05, C04)
@@ -355,6 +366,7 @@ NOT_APPLICABLE = {}
 
 PROPERTIES = {
     "C01": dict(
+        seed_rotation=['x64_api_flavours', 'x64_api_hist_l1', 'async_fake_one_of_family', 'x64_alloc_any_4k'],
         level_text="Bounded model checking of the real x86-64 installation code: for every function address (any page offset), trampoline placement within the allocator's range and fake address in [1,2^63), an independent x86-64 interpreter started at the function arrives at exactly the fake (or the boolean stub returns the value), and every write hit a page the code had made writable. One installation per harness; the retry loop of the allocator is C11's.",
         level_note="Trusted: the simulated OS/memory model and the stubs that route copy_nonoverlapping to it, the x86-64 interpreter, CBMC. Assumed: cooperative kernel for the first mmap; fake not inside the patched slot. Outside: execution of the fake, concurrent execution of the bytes being patched.",
         quick=["x64_core_redirect", "x64_core_boolean", "win_core_redirect"],
@@ -363,6 +375,7 @@ PROPERTIES = {
                  "kernel-half fake addresses (>= 2^63)"],
     ),
     "C02": dict(
+        seed_rotation=['x64_api_hist_l2', 'x64_api_hist_l1x2', 'a64_core_boolean', 'x64_api_flavours'],
         level_text="Bounded model checking of restoration: (a) one installation from an arbitrary entry state restores byte-for-byte for every address placement (the inductive step: each guard puts back exactly what it overwrote); (b) histories through the public API with K=2 functions and L<=2 (quick) / L<=3 (thorough) installations with symbolic targets and kinds, including the same function several times: while the injector lives the latest installation is in effect, after drop every entry equals its original image; two consecutive lifetimes; L<=3 on the 32-bit ARM variant (same drop logic, cheaper encoding).",
         level_note="Histories longer than 3 installations are outside the bound; the stack argument (guards released newest first, each restoring what it saved) is exercised in full at L=3 but is not proved for unbounded L. Allocator replaced by its contract in history harnesses. Unwinding is modelled as scope exit (C05).",
         quick=["x64_core_redirect", "x64_core_boolean", "x64_api_hist_l1", "arm_api_same2", "arm_api_same3"],
@@ -371,6 +384,7 @@ PROPERTIES = {
         outside=["histories longer than L=3", "more than two distinct functions per history", "fake kinds other than redirect/forced boolean in histories (closure/fake!/async reach the same guard constructor; see C01/C14)"],
     ),
     "C03": dict(
+        seed_rotation=['arm_core_t32_aligned', 'x64_alloc_layout_16m', 'a64_core_boolean', 'win_core_redirect'],
         level_text="The memory model itself is the oracle: every write the code issues must start at a registered function entry or at a trampoline it mapped and must fit the slot (16 bytes entries / 24 bytes trampolines), else the obligation fails; bytes behind the patch and a second function packed 16 bytes away stay identical during and after; mprotect may not drop r-x from text. Decided for every address placement (single install, all variants built so far) and for API histories K=2, L<=2/3.",
         level_note="Relies on all code-memory writes going through ptr::copy_nonoverlapping: any other dereference of a simulated (integer) address is reported by Kani's pointer checks as a failed check and makes the run inconclusive, so the assumption is checked, not trusted. Mappings the model does not know (shared libraries) are outside.",
         quick=["x64_core_redirect", "x64_core_boolean", "x64_api_hist_l1", "x64_alloc_any_4k", "arm_core_a32", "arm_core_t32_misaligned"],
@@ -379,6 +393,7 @@ PROPERTIES = {
         outside=["executable mappings the model does not register (shared libraries)", "histories beyond L=3"],
     ),
     "C12": dict(
+        seed_rotation=['x64_api_hist_l1x2', 'x64_alloc_layout_16m', 'win_core_redirect', 'arm_core_a32'],
         level_text="OS-model accounting decided by the solver: every munmap must name a live trampoline with a matching length (else the obligation fails: double free or foreign memory), after each install the live set equals the guards, after drop it equals the set before creation; one install/drop cycle from a clean state ends clean for every placement, histories L<=2/3 and two consecutive lifetimes; 32-bit ARM never maps. Unbounded cycles follow by induction because the crate keeps no state between cycles except the lock (checked by a source scan, reported as an assumption).",
         level_note="The 10^5-cycle figure is covered by the one-cycle induction step, not executed. Kernel-side limits (vm.max_map_count) are outside. The refused-install and exhaustion paths are C05/C11.",
         quick=["x64_core_redirect", "x64_core_boolean", "x64_api_hist_l1", "x64_alloc_any_4k", "arm_api_same2", "a64_core_boolean"],
@@ -387,6 +402,7 @@ PROPERTIES = {
         outside=["cycle counts are covered by induction over one cycle, not unrolled beyond 2"],
     ),
     "C13": dict(
+        seed_rotation=['arm_core_t32_misaligned', 'x64_core_boolean', 'win_core_redirect'],
         level_text="The complete integer register file, stack pointer and return address are symbolic at the call; the independent interpreter follows entry and trampoline to the fake and the solver decides that every register except the architecture's scratch (x86-64: rax) and the stack pointer are unchanged and no memory is written, for both trampoline forms and every address placement; 32-bit ARM: no argument register, sp or lr is written and (known finding) the scratch register is callee-saved.",
         level_note="Vector/floating-point registers are untouched by construction (no instruction in the decoder's table names them; any other instruction is a decode failure). Return path: the fake is entered with the caller's return address in place, so its return goes straight to the caller. AArch64 is covered under C15 once its install harness runs.",
         quick=["x64_core_redirect", "arm_core_a32", "arm_core_t32_aligned"],
@@ -394,6 +410,7 @@ PROPERTIES = {
         outside=["execution inside the fake", "vector registers as values (they are shown untouched by the instruction table, not tracked)"],
     ),
     "C04": dict(
+        seed_rotation=['panic_at_p0', 'panic_at_p4', 'normal_exit_p5', 'x64_api_hist_l1x2'],
         level_text="Thread interleavings of std::sync::Mutex cannot be encoded (Kani has no concurrency; the futex path is FFI). What the solver decides on the real code is the lock discipline from which exclusion follows: (G1) from the return of InjectorPP::new()/prevent() until the value is dropped the process-wide lock is held, on every path through a symbolic history; (G2) every simulated code write, including every restoring write during drop, happens while the lock is held (the lock is released strictly after the last restore); (G3) after drop - normal, or while panicking with the mutex left poisoned - the lock is free and both new() and prevent() succeed again.",
         level_note="Trusted: std::sync::Mutex gives mutual exclusion and wakes a waiter on unlock. With G1-G3 this yields 'at most one holder', 'a preventer's holder sees only original code' (no write can happen without the lock) and hand-over. Schedules themselves are NOT explored: a change that replaces, skips, re-orders or shortens the locking is detected; a data race inside a hand-written lock would not be.",
         quick=["x64_api_hist_l1", "arm_api_same2", "after_panic_usable", "panic_at_p2"],
@@ -401,6 +418,7 @@ PROPERTIES = {
         outside=["thread schedules (trusted: std Mutex)", "fairness / liveness of hand-over beyond 'the lock is free and can be taken'"],
     ),
     "C05": dict(
+        seed_rotation=['panic_at_p0', 'panic_at_p1', 'panic_at_p3', 'normal_exit_p5', 'sig_gate_async_differs_6'],
         level_text="Unwinding modelled as early scope exit with panicking()==true (the stub also reaches std, so the mutex really becomes poisoned). For each crash position of a scripted body (after creation, after each installation, after the calls, normal exit) with a call-count expectation pending (N in {0,1}, k calls): no panic site is reachable inside any destructor (CallCountVerifier::drop for ALL (count, expected) when panicking - a second panic would abort), every function is restored, no trampoline stays mapped, the lock is free; the next InjectorPP::new() and a full install/call/drop cycle and a preventer work (the POISONED branch itself is unreachable in the model because Kani builds std with panic=abort; it is exercised by a native premise with real unwinding in a thread). Library panics during installation (signature mismatch, null pointer, non-bool target, allocation exhaustion, mprotect failure) are reached with no code write, no mprotect and no live mapping before them.",
         level_note="Trusted: rustc's unwinder runs the same drop glue as an early return. Outside: mprotect failing during restoration (a page that could be made writable once is assumed to be again), panics inside extern \"C\" fakes (excluded by the property), the intermediate state 'verifier stored, guard not yet' after a refused will_execute is covered compositionally by verifier_quiet (silent for every count when panicking).",
         premises=["premise_poison_recovery"],
@@ -434,6 +452,7 @@ PROPERTIES = {
         outside=["argument/return types other than the template's", "more than one call step per arm (the step is inductive)"],
     ),
     "C09": dict(
+        seed_rotation=['sig_gate_differs_12', 'sig_gate_equal_12'],
         level_text="The gate is decided to be EXACT string equality for all pairs of recorded signatures up to the bound: for every two differing ASCII strings (length <= 2 and <= 6 quick / 12 thorough; the 2-byte bound stays decidable even when a changed comparison drags Unicode tables into the formula) the type-checked installation calls (will_execute_raw, will_return_async) do not return and the simulated machine sees no write, no mprotect and no mmap before the panic; for every two equal strings the installation completes. This rules out prefix / suffix / return-type-only weakenings of the comparison. Null pointers are refused by FuncPtr::new. Typed/unchecked mixes are the instances with one empty string.",
         level_note="The link from TYPES to STRINGS (std::any::type_name spelling differs for structurally different fn-pointer types) is a compiler fact, checked as a separate native premise over a generated family of types through every macro form; pairs differing only in lifetimes are reported, not judged.",
         quick=["sig_gate_differs_2", "sig_gate_equal_2", "sig_gate_differs_6", "sig_gate_equal_6", "sig_gate_async_differs_6", "null_pointer_refused"],
@@ -442,15 +461,18 @@ PROPERTIES = {
         outside=["signature strings longer than 12 bytes (the comparison is a byte-wise equality; no length-dependent branch exists in the checked code)"],
     ),
     "C10": dict(
+        seed_rotation=['bool_gate_refuses_len15', 'bool_gate_refuses_len20', 'bool_gate_accepts_len12', 'bool_gate_refuses_20'],
         level_text="Stub half: the boolean trampoline is interpreted from a fully symbolic register file / stack pointer / return address (x86-64: `mov rax,imm32; ret`; AArch64: `movz w0,#v; ret`): the solver decides that the low byte of the result register equals the value, control returns to the caller's return address, the stack pointer is as after a normal return, no memory is written and no other register changes, for every placement. Gate half: for EVERY printable-ASCII signature string up to 16 (quick) / 22 (thorough) bytes that an independent parser reads as a fn-pointer type name, will_return_boolean is refused (nothing touched) when the top-level return type is not bool - including return types that merely end in `-> bool` - and accepted when it is exactly bool.",
         level_note="32-bit ARM implements the forced boolean as an ordinary redirect to one of two one-line functions: only the redirect is checked there (C16).",
         premises=["premise_bool_gate_family"],
         quick=["x64_core_boolean", "a64_core_boolean", "bool_gate_refuses_16", "bool_gate_accepts_16"],
-        thorough=["x64_core_boolean", "a64_core_boolean", "bool_gate_refuses_16", "bool_gate_accepts_16", "bool_gate_refuses_20", "bool_gate_refuses_22", "bool_gate_accepts_22"],
+        thorough=["x64_core_boolean", "a64_core_boolean", "bool_gate_refuses_16", "bool_gate_accepts_16", "bool_gate_refuses_20", "bool_gate_refuses_22", "bool_gate_accepts_22",
+                  "bool_gate_refuses_len15", "bool_gate_refuses_len20", "bool_gate_accepts_len12"],
         timeout_min={"quick": 30, "thorough": 240},
         outside=["32-bit ARM boolean flavour beyond the redirect being well-formed"],
     ),
     "C11": dict(
+        seed_rotation=['x64_alloc_any_16k', 'x64_alloc_any_64k', 'a64_alloc_layout_16m', 'a64_alloc_any_16k', 'win_alloc_layout_256m'],
         level_text="The real retry loop of allocate_jit_memory_unix runs together with the real entry-branch writer: (11a) any-kernel with real page sizes 4K/16K/64K where each of the first placements fails or lands anywhere; (11b) layout-kernel with the page scaled to 16 MiB / 8 MiB so that the whole +-128 MiB window, its clipping at zero, the inclusive upper bound, both extreme offsets and the exhaustion panic are inside the unwinding bound. Decided: an accepted placement is one the written branch actually reaches (by decoding the entry), every rejected placement is unmapped with its own address/length before the next attempt, nothing else is unmapped, the function is neither written nor re-protected before acceptance, a full neighbourhood ends in the panic and never in a return. x86-64 and AArch64 Linux.",
         level_note="The full window at 4 KiB pages (65 537 iterations) is outside the bound; it rests on the loop arithmetic being parametric in the page size. The state at the exhaustion panic itself is observed through the invariants asserted at every mmap call (Kani cannot run code after a panic).",
         quick=["x64_alloc_any_4k", "x64_alloc_layout_16m", "a64_alloc_any_4k", "a64_core_refusal"],
@@ -460,6 +482,7 @@ PROPERTIES = {
         outside=["full +-128 MiB window with 4 KiB pages (65 537 iterations)", "the macOS allocator constants (same loop, +-2 GiB) and the Windows AArch64 branch"],
     ),
     "C14": dict(
+        seed_rotation=['async_history_family'],
         level_text="The async macros and API are run on real `async fn`s (free functions and a method, by-value and by-reference parameters; u32, unit and 64-byte outputs; futures created and never polled, as the macros do): the solver decides that the entry that gets patched is <F as Future>::poll of exactly the named function's future type and that the poll functions of siblings - including one with the same output type - keep their bytes; that the decoded destination is the address of the function generated by async_return!, which returns Poll::Ready(v) on every call with v evaluated afresh (the value expression reads a cell the harness changes between calls); that histories fake / re-fake / fake sibling (unchecked flavour) / drop leave the latest in effect and restore everything. Output-type mismatches are refused by the C09 gate (sig_gate_async_differs).",
         level_note="Trusted: the replacement may ignore poll's arguments under the platform ABI; poll is called, not inlined; executor behaviour. Addresses of poll functions are the ones Kani assigns (concrete object ids), so address-placement generality is C01's, not this check's.",
         quick=["async_fake_one_of_family", "async_refake_same_function", "async_outputs_unit_and_large", "sig_gate_async_differs_6"],
@@ -482,6 +505,7 @@ PROPERTIES = {
         outside=["forced-boolean flavour on ARM beyond 'it is an ordinary redirect' (function addresses are 64-bit in the host model)"],
     ),
     "C17": dict(
+        seed_rotation=['arm_core_t32_misaligned', 'arm_api_same2', 'win_core_redirect'],
         level_text="Dirty-bit model decided by the solver: every simulated write marks its bytes dirty, a flush clears the bytes it covers; at return from every installation and from drop no byte may be dirty, and no instruction byte on the interpreted path may be dirty, for every placement and for histories L<=2/3 (x86-64 Linux and 32-bit ARM so far).",
         level_note="Whether __clear_cache itself works is outside. macOS/Windows primitives are not modelled here.",
         quick=["x64_core_redirect", "x64_core_boolean", "x64_api_hist_l1", "arm_core_a32", "a64_core_boolean"],
@@ -743,9 +767,9 @@ def replay_count_restarts(rec, work):
 
 def replay_bool_gate(rec, work):
     cx = rec.get("counterexample") or {}
-    if "len" not in cx:
+    if "sig" not in cx:
         return {"reproduced": None, "detail": "counterexample values not available"}
-    sig = cx["sig"][:cx["len"]]
+    sig = cx["sig"][:cx.get("len", len(cx["sig"]))]
     return _native(work, "func 0 - 1024 11\nboolsig 0 %s\n" % _hex(sig), rec["harness"])
 
 
